@@ -2,6 +2,8 @@ import GGV.Lemmas.Attach
 import GGV.Lemmas.Dedup
 import GGV.Props.C03
 import GGV.Props.C04
+import GGV.Props.C16
+import GGV.Lemmas.RepositionIgnore
 /-!
 # C12 — Verdicts do not depend on source layout
 
@@ -13,9 +15,13 @@ What the model can carry of the layout transformations:
   and doc lines (`annotations_order_free`, `index_order_free`);
 * for the once-per-file codes the set of reported keys is the set of keys with at least one unsuppressed use,
   whatever the order of the uses (`reported_keys_order_free`).
-Blank lines, comments, gofmt and local renaming change only positions and local identifiers; the model reads
-positions only through comparisons and no local identifier except the receiver name — tied by the metamorphic
-`layout` suite (real analyzers on layout variants of the same program), not proved here.
+* blank lines, comments and gofmt change only where things are: a *re-layout* `ρ` maps byte offsets by a strictly
+  increasing function (fixing the "no position" sentinel 0) and line numbers injectively. `relayout_invariant`:
+  the annotations are unchanged and the diagnostics of the re-laid-out package are the images of the original
+  diagnostics, same codes, same order — for all four walks, the @ignore reader (`ignoreOps_mapPos`), the suppression
+  decision (`ignores_agree`) and the report-time filters together.
+Renaming local variables changes no position and no identifier the model reads except a receiver name (which is
+renamed consistently in declaration and use, `recvCtxOf`); that part stays tied by the metamorphic `layout` suite.
 -/
 namespace GGV.Props.C12
 open GGV.Model GGV.Model.Prog
@@ -153,5 +159,81 @@ theorem plain_order_free {K : Type} [DecidableEq K] (sup : Diag → Bool) (evs e
 
 /-! ## Non-vacuity -/
 example : ([1, 2, 3] : List Nat).Perm [3, 1, 2] := by decide
+
+
+/-! ## re-layout: blank lines, comments, gofmt -/
+
+/-- strictly increasing position maps preserve "inside the range" -/
+theorem suppressed_mapPos (ρ : Relay) (h : ρ.Monotone) (ops : List Op) (code : String) (pos : Int) :
+    GGV.Props.C16.Suppressed hier (ops.map (Op.mapPos ρ.pos)) code (ρ.pos pos) ↔ GGV.Props.C16.Suppressed hier ops code pos := by
+  unfold GGV.Props.C16.Suppressed
+  constructor
+  · rintro ⟨t, ht, hc | ⟨m, hm, hcm, h1, h2⟩⟩
+    · obtain ⟨cs, hcs, htc⟩ := hc
+      simp only [List.mem_map] at hcs
+      obtain ⟨op, hop, e⟩ := hcs
+      cases op with
+      | add m => simp [Op.mapPos] at e
+      | addModule cs' =>
+        simp only [Op.mapPos, Op.addModule.injEq] at e
+        subst e
+        exact ⟨t, ht, Or.inl ⟨cs', hop, htc⟩⟩
+    · simp only [List.mem_map] at hm
+      obtain ⟨op, hop, e⟩ := hm
+      cases op with
+      | addModule cs' => simp [Op.mapPos] at e
+      | add m0 =>
+        simp only [Op.mapPos, Op.add.injEq] at e
+        subst e
+        exact ⟨t, ht, Or.inr ⟨m0, hop, hcm, (h.le_iff _ _).1 h1, (h.le_iff _ _).1 h2⟩⟩
+  · rintro ⟨t, ht, hc | ⟨m, hm, hcm, h1, h2⟩⟩
+    · obtain ⟨cs, hcs, htc⟩ := hc
+      exact ⟨t, ht, Or.inl ⟨cs, List.mem_map.2 ⟨_, hcs, rfl⟩, htc⟩⟩
+    · exact ⟨t, ht, Or.inr ⟨Marker.mapPos ρ.pos m, List.mem_map.2 ⟨_, hm, rfl⟩, hcm, (h.le_iff _ _).2 h1, (h.le_iff _ _).2 h2⟩⟩
+
+/-- the ignore set built from the re-laid-out markers answers at `ρ.pos pos` what the original answers at `pos` -/
+theorem ignores_agree (ρ : Relay) (h : ρ.Monotone) (ops : List Op) (hv : GGV.Props.C16.StartsValid ops) :
+    IgnAgree ρ.pos (run ops) (run (ops.map (Op.mapPos ρ.pos))) := by
+  intro code pos
+  have hv' : GGV.Props.C16.StartsValid (ops.map (Op.mapPos ρ.pos)) := by
+    intro m hm
+    simp only [List.mem_map] at hm
+    obtain ⟨op, hop, e⟩ := hm
+    cases op with
+    | addModule cs' => simp [Op.mapPos] at e
+    | add m0 =>
+      simp only [Op.mapPos, Op.add.injEq] at e
+      subst e
+      have h0 := hv m0 hop
+      have := h.strict 0 m0.start (by omega)
+      rw [h.zero] at this
+      simp only [Marker.mapPos]
+      omega
+  rw [Bool.eq_iff_iff, GGV.Props.C16.contains_iff _ hv', GGV.Props.C16.contains_iff _ hv]
+  exact suppressed_mapPos ρ h ops code pos
+
+/-- **re-layout invariance** (blank lines, comments, gofmt): for a position map that keeps the order of tokens and a
+    line map that keeps lines apart, the annotations read are the same and the diagnostics are the images of the
+    original diagnostics — same codes, same statements, in the same order. -/
+theorem relayout_invariant (ρ : Relay) (h : ρ.Monotone) (cfg : Cfg) (facts : List (Name × Annotations)) (p : Pkg)
+    (hv : GGV.Props.C16.StartsValid (ignoreOps cfg p)) :
+    (analyze cfg facts (p.mapPos ρ)).ann = (analyze cfg facts p).ann ∧
+    (analyze cfg facts (p.mapPos ρ)).diags = (analyze cfg facts p).diags.map (Diag.mapPos ρ.pos) := by
+  have hann := readAnnotations_mapPos ρ cfg p
+  have hig : IgnAgree ρ.pos (readIgnores cfg p) (readIgnores cfg (p.mapPos ρ)) := by
+    unfold readIgnores
+    rw [ignoreOps_mapPos ρ h]
+    exact ignores_agree ρ h _ hv
+  refine ⟨hann, ?_⟩
+  unfold analyze
+  simp only [hann, Pkg.mapPos_path, List.map_append]
+  have hname : (p.mapPos ρ).name = p.name := rfl
+  rw [hname, checkImmutable_mapPos, checkConstructor_mapPos,
+    checkTestOnly_mapPos ρ cfg _ _ _ hig, checkPackageOnly_mapPos ρ cfg _ _ _ hig,
+    report_mapPos ρ _ _ hig, report_mapPos ρ _ _ hig]
+
+/-- non-vacuity: inserting `k` bytes and `j` lines in front of everything (a leading comment block) is a re-layout -/
+example (k j : Nat) : (⟨fun x => if x ≤ 0 then x else x + k, fun l => l + j⟩ : Relay).Monotone :=
+  ⟨by intro a b hab; simp only; split <;> split <;> omega, by simp, by intro a b e; simp only at e; omega⟩
 
 end GGV.Props.C12
